@@ -162,6 +162,22 @@ CHECKS['C15'] = dict(
               'exhaustive HTTP sweep with state fingerprints + differential CSRF sequences',
     design='C15')
 
+CHECKS['C07'] = dict(
+    text='Theorems: C07_roundtrip (for every legal value - every integer, None, every URL-plain string and token list - of the six '
+         'codec kinds Bool / IntOrNone / IntDefault / StrOrNone / Str / List: value -> URL text -> query decoding -> from_string is '
+         'the identity), C07_table_known (every row of coq/Gen/OptionsTable.v, regenerated from OptionsRepository on every run with '
+         'kinds decided by codec-function identity, has a recognised codec pair), C07_table_proved (45 of the 55 options are of a '
+         'proved kind; the other ten are listed), C07_forwarding (forwarded to media type m iff the usage mask has m and the value '
+         'differs from the default). Tied to /repo by differential runs of the real from_string/to_string/generate_cgi_parameters/'
+         'dict_to_cgi_params/werkzeug decoding against the model, a round-trip oracle for ALL 55 options and random option subsets, '
+         'and over HTTP: the query strings of a real manifest\'s media URLs re-parsed by the server\'s own parser.',
+    note=TB + 'PARTIAL: error lists, licence URLs, DRM selection, PlayReady version and availabilityStartTime (10 options) are not '
+         'proved in Coq - decided by the differential round trip; werkzeug decoding is modelled (+ and %XX); free strings are '
+         'restricted to URL-plain characters (the URL layer does no escaping).',
+    technique='Coq proof (decimal print/parse, comma split/join, query decoding lemmas; finite generated table by vm_compute) + '
+              'differential correspondence + round-trip oracle + HTTP',
+    design='C07')
+
 NOT_YET = {
 }
 
